@@ -212,6 +212,9 @@ def gen_family(rng):
                 parts.extend([r.choice(['zz', 'tmp']), '..'])
             elif x < 0.5:
                 parts.append('')
+            elif x < 0.58:
+                # an empty segment right in front of a parent reference: '/tmp//../' is '/tmp/../' with a doubled slash
+                parts.extend([r.choice(['zz', 'tmp']), '', '..'])
             # escape case variation only in the hex digits
             seg2 = re.sub(r'%[0-9A-F]{2}',
                           lambda m: m.group(0).lower() if r.random() < 0.5 else (
